@@ -173,6 +173,37 @@ func (p *Program) seedOrigin(v ssa.Value, depth int) (string, bool) {
 	case *ssa.Convert:
 		return p.seedOrigin(x.X, depth+1)
 	case *ssa.Parameter:
+		// a seed handed down through a helper: every request-path caller must pass a request seed
+		fn := x.Parent()
+		idx := -1
+		for i, prm := range fn.Params {
+			if prm == x {
+				idx = i
+			}
+		}
+		why, n := "", 0
+		for _, g := range p.Funcs {
+			if !p.RPHttp[g] {
+				continue
+			}
+			for _, b := range g.Blocks {
+				for _, in := range b.Instrs {
+					call, ok := in.(ssa.CallInstruction)
+					if !ok || call.Common().StaticCallee() != fn || idx >= len(call.Common().Args) {
+						continue
+					}
+					s, ok := p.seedOrigin(call.Common().Args[idx], depth+1)
+					if !ok {
+						return "parameter " + x.Name() + " <- " + s, false
+					}
+					why = s
+					n++
+				}
+			}
+		}
+		if n > 0 {
+			return "parameter " + x.Name() + " <- " + why, true
+		}
 		return "parameter " + x.Name(), false
 	}
 	return fmt.Sprintf("%T", v), false
@@ -293,7 +324,7 @@ func (p *Program) reachesGenerator(f *ssa.Function, seen map[*ssa.Function]bool)
 func ruleND3(p *Program, c *Check, funcs []*ssa.Function) {
 	c.Rule("ND-3", "every range over a map on the request path is order-insensitive: per-key map writes (P), panic-only values (E), "+
 		"or collected into a fresh slice that is sorted before use at a tabled site (S); no other loop-carried value, early exit, "+
-		"generator call or escaping per-iteration value", 20)
+		"generator call or escaping per-iteration value", 14)
 	for _, f := range funcs {
 		for _, mr := range findMapRanges(f) {
 			classifyMapRange(p, c, mr)
@@ -693,7 +724,7 @@ func describeValue(v ssa.Value) string {
 
 func ruleND4(p *Program, c *Check, funcs []*ssa.Function) {
 	c.Rule("ND-4", "comparators handed to sort.* (closures and Less methods) write nothing and draw no random numbers "+
-		"(tabled exception: aspect_elimination.sortCriteria breaks weight ties with the request generator)", 6)
+		"(tabled exception: aspect_elimination.sortCriteria breaks weight ties with the request generator)", 5)
 	check := func(cmp *ssa.Function, site string, where *ssa.Function) {
 		fk := funcKey(cmp)
 		var problems []string
@@ -873,7 +904,7 @@ func onceGuarded(p *Program, f *ssa.Function) bool {
 
 func ruleSHR2(p *Program, c *Check, sh *SharedInfo, funcs []*ssa.Function) {
 	c.Rule("SHR-2", "every BlankParams/NewProvider implementation returns a fresh object (or a field-less one) and every "+
-		"utils.DecodeToStruct target is request-local", 30)
+		"utils.DecodeToStruct target is request-local", 22)
 	for _, f := range p.Funcs {
 		if f.Signature.Recv() == nil || (f.Name() != "BlankParams" && f.Name() != "NewProvider") || f.Parent() != nil || f.Synthetic != "" {
 			continue
